@@ -736,8 +736,12 @@ fn main() {
     for (name, mk) in finite_layouts() {
         let reach = explore_finite(&mut out, name, mk, thorough);
         let e = mk();
-        // alt_syllables: every code for the layouts that have a table, every composable code otherwise
+        // alt_syllables: every syllable value (since the repair of C13's F47 `Syllable::try_from` hands out nothing else)
+        // for the layouts that have a table, every composable code otherwise
         for c in 1..=65535u16 {
+            if Syllable::try_from(c).is_err() {
+                continue;
+            }
             let a = alt_of(&*e, c);
             if !(name == "hsu" || name == "et26") && a.is_empty() && !(c < 0x3000 || c == 0x8000) {
                 continue;
